@@ -22,12 +22,15 @@ structure Ledger where
 def Ledger.leaked (l : Ledger) : Nat := l.created - l.toBranches - l.toSuccessors - l.closed
 
 /-- `resolveCompletedTasks` for a task with `W` data successors, `B` branches whose conditions
-    selected `sel` targets in total:
+    selected `sel` targets in total, `dups` of the `sel + W` successor entries naming a target
+    that an earlier entry already named (edge plus branch, or two branches, to one node):
       vs := copyItem(output, W + 2B);  branches get vs[W+B:]
       next := selected ++ writeTo
       if |next| > 0 { vs = vs[:W+B-1] ++ copyItem(vs[W+B-1], |next|-W-B+1);  next[i] gets vs[i] }
-    `closesSurplus`: does the code close the readers nobody got (source fact). -/
-def distribute (closesSurplus : Bool) (W B sel : Nat) : Ledger :=
+    A repeated target keeps the later copy; the copy it replaces must be released.
+    `closesSurplus`: does the code close the readers nobody got; `closesReplaced`: does it
+    close a copy that a later entry for the same target replaces (source facts). -/
+def distribute (closesSurplus closesReplaced : Bool) (W B sel dups : Nat) : Ledger :=
   let next := sel + W
   let t1 := copyCount (W + 2 * B)
   if next = 0 then
@@ -36,8 +39,8 @@ def distribute (closesSurplus : Bool) (W B sel : Nat) : Ledger :=
   else
     -- (toCopyNum + 1 may be ≤ 0: then `copyItem` returns the item itself, as for 1)
     let created := t1 - 1 + copyCount (next + 1 - (W + B))
-    { created := created, toBranches := B, toSuccessors := next,
-      closed := if closesSurplus then created - B - next else 0 }
+    { created := created, toBranches := B, toSuccessors := next - dups,
+      closed := (if closesSurplus then created - B - next else 0) + (if closesReplaced then dups else 0) }
 
 /-! ### instrumented run: preconditions of the property on a concrete run -/
 
